@@ -59,3 +59,8 @@ Theorem C11_append_obj_rejected :
   let '(w1, c1, _) := ex_obj_do ex_obj_w ex_obj_root [] (XOp (CSet (sa "items") (PList 0 []))) in let '(w2, c2, o2) := ex_obj_do w1 c1 [] (XObj RAppend (sa "items") false [] ex_need []) in let '(w3, c3, o3) := ex_obj_do w2 c2 [] (ex_set RAppend (sa "items")) in let '(_, c4, o4) := ex_obj_do w3 c3 [] (XObj (RInsert 0) (sa "items") false [] ex_need []) in o2 = OErr (EValidation (sa "items[0].need")) /\ c2 = c1 /\ o3 = OOk /\ dget (sa "items") (c_data c3) = Some (VList [snd (detached leaf lvalidate lto_python ldefault l_callable lflag (vrun []) w2 false [] ex_need [([], CSet (sa "need") (PInt 4))])]) /\ o4 = OErr (EValidation (sa "items[1].need")) /\ c4 = c3.
 Proof. exact append_obj_rejected. Qed.
 Print Assumptions C11_append_obj_rejected.
+
+Theorem C11_reoffered_obj_rejected_again :
+  let '(w1, c1, _) := ex_obj_do ex_obj_w ex_obj_root [] (XOp (CSet (sa "items") (PList 0 []))) in let '(w2, k2, c2, o2) := ex_obj_dos w1 None c1 (XObj RAppend (sa "items") false [] ex_need []) in let '(w3, k3, c3, o3) := ex_obj_dos w2 k2 c2 (XAgain RAppend (sa "items") []) in let '(w4, k4, c4, o4) := ex_obj_dos w3 k3 c3 (XAgain (RInsert 0) (sa "items") [([], CSet (sa "need") (PInt 4))]) in let '(_, _, c5, o5) := ex_obj_dos w4 k4 c4 (XAgain RAppend (sa "items") []) in o2 = OErr (EValidation (sa "items[0].need")) /\ o3 = o2 /\ c3 = c1 /\ o4 = OOk /\ k4 = None /\ o5 = OUnm /\ c5 = c4 /\ (exists it : icfg, dget (sa "items") (c_data c4) = Some (VList [it]) /\ dget (sa "need") (c_data it) = Some (VLeaf (PInt 4))).
+Proof. exact reoffered_obj_rejected_again. Qed.
+Print Assumptions C11_reoffered_obj_rejected_again.
